@@ -667,6 +667,267 @@ Section T.
   Qed.
 End T.
 
+(** ** Bodies on the best chain are contiguous from the tip
+    (a seventh invariant, kept as its own predicate so that [MInv] keeps its shape):
+    if a best-chain block has no body then no best-chain block below it has one. *)
+Definition bodies_contig (U : universe) (m : mgr) : Prop :=
+  ∀ x y, x ∈ best m → y ∈ best m → ht U y < ht U x →
+         has_body m x = false → has_body m y = false.
+Definition MInvP (U : universe) (m : mgr) : Prop := MInv U m ∧ bodies_contig U m.
+
+Section C.
+  Context (U : universe) (HWF : WF U).
+
+  Lemma contig_init : bodies_contig U init.
+  Proof. intros x y ->%elem_of_list_singleton ->%elem_of_list_singleton. lia. Qed.
+
+  Lemma contig_sub m m' :
+    (∀ x, x ∈ best m' → x ∈ best m) →
+    (∀ x, x ∈ best m' → has_body m' x = has_body m x) →
+    bodies_contig U m → bodies_contig U m'.
+  Proof.
+    intros Hs Hb Hc x y Hx Hy Hlt Hbx. rewrite (Hb y Hy). rewrite (Hb x Hx) in Hbx.
+    apply (Hc x y); auto.
+  Qed.
+
+  Lemma contig_mid m m' :
+    MInv U m → MInv U m' → Mid m m' → upg m m' → bodies_contig U m → bodies_contig U m'.
+  Proof.
+    intros HI HI' (pre & pre0 & suf & Hb' & Hb & Hne & Hs) Hu Hc x y Hx Hy Hlt Hbx.
+    destruct suf as [|c rest]; [done|].
+    pose proof (I_chain U m' HI') as Hch. rewrite Hb' in Hch.
+    destruct (chain_split_at U _ _ _ Hch) as [Hlp Hcc].
+    assert (∀ z, z ∈ pre → has_body m' z = true) as Hpre.
+    { intros z Hz. apply has_supp_body, Hs, elem_of_app; auto. }
+    rewrite Hb' in Hx, Hy.
+    apply elem_of_app in Hx as [Hx|Hx]; [by rewrite Hpre in Hbx|].
+    apply elem_of_app in Hy as [Hy|Hy].
+    - exfalso. pose proof (lp_ht_elem U HWF _ _ _ Hlp Hy) as [H1 _].
+      pose proof (chain_ht_le U HWF _ _ Hcc Hx) as H2. cbn [hd] in H2. lia.
+    - rewrite (upg_body m m' y Hu). rewrite (upg_body m m' x Hu) in Hbx.
+      apply (Hc x y); try done; rewrite Hb; apply elem_of_app; auto.
+  Qed.
+
+  Lemma reorg_to_ok_mid m target m' :
+    MInv U m → reorg_to U m target = (m', Ok) → Mid m m'.
+  Proof.
+    intros HI. unfold reorg_to.
+    destruct (rpath U m (fuel_of m) (tip m) target) as [[rv app]|] eqn:E; [|done].
+    destruct (rpath_sound U HWF _ _ _ _ _ _ E) as (c & Hr & Hlr & Hp & Hlp & _ & _).
+    destruct (chain_split U HWF (best m) rv c (I_chain U m HI) Hr Hlr) as (rest & Hb).
+    destruct (do_reverts_spec U (length rv) m HI) as (i & Hi & HI1 & Hs1 & Hres).
+    { rewrite Hb, app_length. cbn. lia. }
+    destruct Hres as [[-> E1]|[Hlt E1]]; rewrite E1; [|done].
+    rewrite Hb, drop_app in HI1. rewrite Hb, drop_app. rewrite Hb, take_app in Hs1.
+    set (m1 := Mgr (known m) (c :: rest)) in *.
+    destruct (do_applies_spec U app m1 HI1) as (j & m2 & Hj & HI2 & Hb2 & Hu2 & Hs2 & Hres); [done|].
+    destruct Hres as [[-> E2]|[Hlt E2]]; rewrite E2; [|done]. intros [= <-].
+    rewrite take_ge in Hb2, Hs2 by done.
+    exists (reverse app), rv, (c :: rest). split_and!; try done.
+    intros x [Hx|Hx]%elem_of_app.
+    - apply Hs2. by apply elem_of_reverse.
+    - eapply upg_supp; [|apply (Hs1 x Hx)]. eapply upg_trans; [apply (upg_refl m m1)|]; done.
+  Qed.
+
+  Lemma maybe_reorg_contig m cs :
+    MInv U m → bodies_contig U m → bodies_contig U (maybe_reorg U m cs).1.1.
+  Proof.
+    intros HI Hc. unfold maybe_reorg. destruct (heavier U cs (tip m)); [|done].
+    pose proof (reorg_to_spec U HWF m cs HI) as H1.
+    destruct (reorg_to U m cs) as [m1 [| |]] eqn:E.
+    - destruct H1 as (HI1 & Hu1 & _). cbn.
+      exact (contig_mid m m1 HI HI1 (reorg_to_ok_mid m cs m1 HI E) Hu1 Hc).
+    - destruct H1 as (HI1 & Hu1 & Hmid). rewrite (rollback_exact U HWF m m1 HI HI1 Hmid). cbn.
+      apply (contig_sub m); cbn [best]; try done.
+      intros x _. exact (upg_body m m1 x Hu1).
+    - done.
+  Qed.
+
+  Lemma ext_best_body m m' x :
+    MInv U m → ext (best m) m m' → x ∈ best m → has_body m' x = has_body m x.
+  Proof.
+    intros HI He Hx. destruct (I_best U m HI x Hx) as (k & Hk & _).
+    destruct (He x k Hk) as (k' & Hk' & _ & _ & _ & _ & Heq).
+    unfold has_body. rewrite Hk, Hk', (Heq Hx). done.
+  Qed.
+
+  Lemma add_blocks_contig m batch :
+    MInv U m → bodies_contig U m → bodies_contig U (add_blocks U m batch).1.1.
+  Proof.
+    intros HI Hc. unfold add_blocks. destruct batch as [|b0 batch']; [done|].
+    destruct (add_loop_spec U (b0 :: batch') m (tip m) HI (tip_state U m HI)) as (HI1 & Hb1 & He1 & _).
+    destruct (add_loop U m (tip m) (b0 :: batch')) as [m1 r]. cbn [fst snd] in *.
+    assert (bodies_contig U m1) as Hc1.
+    { apply (contig_sub m); [by rewrite Hb1| |done].
+      intros x Hx. rewrite Hb1 in Hx. by apply ext_best_body. }
+    destruct r as [cs|]; [|done]. by apply maybe_reorg_contig.
+  Qed.
+
+  Lemma add_validated_contig m batch :
+    MInv U m → validated_pre U batch → bodies_contig U m →
+    bodies_contig U (add_validated U m batch).1.1.
+  Proof.
+    intros HI Hpre Hc. unfold add_validated. destruct batch as [|b0 batch']; [done|].
+    destruct (U !! b0) as [B0|] eqn:HB0; [|done].
+    destruct (has_state m (parent B0)) eqn:Hps; cbn [negb]; [|done].
+    destruct (store_validated_fold U (b0 :: batch') m HI Hpre) as (HI1 & Hb1 & Hk1).
+    { intros b [= <-]. by rewrite (par_eq U _ _ HB0). }
+    apply maybe_reorg_contig; [done|].
+    apply (contig_sub m); [by rewrite Hb1| |done].
+    intros x Hx. rewrite Hb1 in Hx. unfold has_body.
+    destruct (Hk1 x) as [->|(_ & Hnb & _)]; done.
+  Qed.
+
+  Lemma best_at_lt m j z : best_at m j = Some z → j < N.of_nat (length (best m)).
+  Proof. unfold best_at. by destruct (N.ltb_spec j (N.of_nat (length (best m)))). Qed.
+
+  Lemma best_at_some m j : j < N.of_nat (length (best m)) → ∃ z, best_at m j = Some z.
+  Proof.
+    intros Hj. unfold best_at.
+    destruct (N.ltb_spec j (N.of_nat (length (best m)))); [|lia].
+    destruct (nth_error (best m) (N.to_nat (N.of_nat (length (best m)) - 1 - j))) eqn:E; [eauto|].
+    apply nth_error_None in E. lia.
+  Qed.
+
+  Lemma best_same_ht m x y :
+    MInv U m → x ∈ best m → y ∈ best m → ht U x = ht U y → x = y.
+  Proof.
+    intros HI Hx Hy He. pose proof (best_at_complete U HWF m x HI Hx) as H1.
+    pose proof (best_at_complete U HWF m y HI Hy) as H2. rewrite He in H1. congruence.
+  Qed.
+
+  (** walking up from a block that has a body, in a contiguous chain: all have bodies *)
+  Lemma contig_above m x y :
+    MInv U m → bodies_contig U m → x ∈ best m → y ∈ best m →
+    has_body m x = true → ht U x ≤ ht U y → has_body m y = true.
+  Proof.
+    intros HI Hc Hx Hy Hbx Hle. destruct (has_body m y) eqn:E; [done|].
+    destruct (decide (ht U x = ht U y)) as [He|Hne].
+    - rewrite (best_same_ht m x y HI Hx Hy He) in Hbx. congruence.
+    - rewrite (Hc y x Hy Hx) in Hbx; [done|lia|done].
+  Qed.
+
+  Lemma prune_contig m h : MInv U m → bodies_contig U m → bodies_contig U (prune m h).
+  Proof.
+    intros HI Hc x y Hx Hy Hlt Hbx.
+    destruct (prune_removes_only_bodies U HWF m h HI) as [Hb Hk]. rewrite Hb in Hx, Hy.
+    destruct (has_body (prune m h) y) eqn:Hby; [exfalso|done].
+    assert (has_body m y = true) as Hbmy.
+    { destruct (has_body m y) eqn:E; [done|]. unfold prune in Hby.
+      by rewrite (prune_from_body_mono _ _ _ E) in Hby. }
+    destruct (has_body m x) eqn:Hbmx.
+    2:{ rewrite (Hc x y Hx Hy Hlt Hbmx) in Hbmy. done. }
+    destruct (Hk x) as [_ Hnx]. destruct (Hk y) as [Hpy _].
+    assert (¬ ¬ pruned_by m h x) as Hnn.
+    { intros Hn. unfold has_body in Hbx, Hbmx. rewrite (Hnx Hn) in Hbx. congruence. }
+    apply Hnn. intros (i & Hi & Hxi & Hall).
+    pose proof (best_at_ht U HWF m i x HI Hxi) as Hix.
+    assert (pruned_by m h y) as Hp.
+    { exists (ht U y). split; [lia|]. split; [by apply best_at_complete|].
+      intros j Hj. destruct (decide (i ≤ j)) as [Hij|Hij]; [apply Hall; lia|].
+      destruct (best_at_some m j) as [z Hz]; [pose proof (best_at_lt m i x Hxi); lia|].
+      exists z. split; [done|].
+      pose proof (best_at_ht U HWF m j z HI Hz) as Hjz.
+      apply (contig_above m y z); try done; [by eapply best_at_elem|lia]. }
+    destruct (Hpy Hp) as (k & _ & Hk'). unfold has_body in Hby. by rewrite Hk' in Hby.
+  Qed.
+
+  Lemma mstep_contig m o :
+    MInv U m → op_pre U o → bodies_contig U m → bodies_contig U (mstep U m o).1.1.
+  Proof.
+    intros HI Hpre Hc. destruct o as [l|l|h]; cbn [mstep].
+    - by apply add_blocks_contig.
+    - by apply add_validated_contig.
+    - by apply prune_contig.
+  Qed.
+
+  Lemma run_from_contig ops : ∀ m,
+    MInv U m → bodies_contig U m → Forall (op_pre U) ops →
+    bodies_contig U (fold_left (λ m o, (mstep U m o).1.1) ops m).
+  Proof.
+    induction ops as [|o ops IH]; intros m HI Hc Hpre; cbn [fold_left]; [done|].
+    apply Forall_cons in Hpre as [Ho Hpre]. apply IH; [|by apply mstep_contig|done].
+    by apply (mstep_inv U HWF).
+  Qed.
+
+  Lemma mrun_contig ops : ops_pre U ops → bodies_contig U (mrun U ops).
+  Proof. intros H. apply run_from_contig; [apply (MInv_init U HWF)|apply contig_init|done]. Qed.
+
+  Lemma mrun_invP ops : ops_pre U ops → MInvP U (mrun U ops).
+  Proof. intros H. split; [by apply best_chain_inv|by apply mrun_contig]. Qed.
+
+  (** *** MinReorgIndex is sound: everything strictly above it on the best chain has a body *)
+  Lemma chain_below_last t mid rest x :
+    chain U (t :: mid ++ rest) → x ∈ rest → ht U x < ht U (List.last mid t).
+  Proof.
+    intros Hc Hx.
+    assert (∃ pre, t :: mid = pre ++ [List.last mid t]) as [pre Hpre].
+    { destruct (exists_last (l:=t :: mid)) as (pre & z & Hz); [done|]. exists pre.
+      rewrite Hz. f_equal. f_equal.
+      assert (List.last (t :: mid) t = z) as <- by (rewrite Hz; apply last_last).
+      apply last_cons. }
+    change (t :: mid ++ rest) with ((t :: mid) ++ rest) in Hc. rewrite Hpre, <- app_assoc in Hc.
+    cbn [app] in Hc. destruct (chain_split_at U _ _ _ Hc) as [_ Hc2].
+    destruct rest as [|z rest]; [by apply elem_of_nil in Hx|].
+    destruct (chain_tail U _ _ Hc2) as (Hc3 & Hg & HU & Hpar); [done|]. cbn [hd] in Hpar.
+    destruct (ht_par U HWF _ Hg HU) as [Hht _]. rewrite Hpar in Hht.
+    pose proof (chain_ht_le U HWF _ _ Hc3 Hx) as Hle. cbn [hd] in Hle. lia.
+  Qed.
+
+  Lemma min_reorg_sound m x :
+    MInv U m → bodies_contig U m →
+    x ∈ best m → ht U (min_reorg m) < ht U x → has_body m x = true.
+  Proof.
+    intros HI Hc Hx Hlt. pose proof (I_chain U m HI) as Hch.
+    destruct (best m) as [|t l] eqn:Hbm; [by apply chain_nonempty in Hch|].
+    destruct (min_reorg_spec m t l Hbm) as (mid & rest & Hbm2 & Hmr & Hmid & _).
+    rewrite Hbm in Hbm2. injection Hbm2 as ->. rewrite Hmr in Hlt.
+    apply elem_of_cons in Hx as [->|[Hx|Hx]%elem_of_app].
+    - destruct mid as [|y mid']; [cbn in Hlt; lia|].
+      assert (has_body m y = true) as Hy by (apply Hmid, elem_of_cons; auto).
+      destruct (has_body m t) eqn:Ht; [done|]. exfalso.
+      destruct (chain_tail U _ _ Hch) as (_ & Htg & HtU & Hpar); [done|]. cbn [hd app] in Hpar.
+      destruct (ht_par U HWF t Htg HtU) as [Hht _]. rewrite Hpar in Hht.
+      rewrite (Hc t y) in Hy; try done; [rewrite Hbm; apply elem_of_cons; auto| |lia].
+      rewrite Hbm. apply elem_of_cons; right. apply elem_of_cons; auto.
+    - by apply Hmid.
+    - pose proof (chain_below_last t mid rest x Hch Hx). lia.
+  Qed.
+
+  (** *** PruneBlocks beyond the tip *)
+  Lemma prune_clamp m h :
+    N.of_nat (length (best m)) ≤ h → prune m h = prune m (N.of_nat (length (best m))).
+  Proof. intros Hh. unfold prune. f_equal. lia. Qed.
+
+  Lemma prune_all_run m h x :
+    MInv U m → N.of_nat (length (best m)) ≤ h → x ∈ best m →
+    (∀ y, y ∈ best m → ht U x ≤ ht U y → has_body m y = true) →
+    has_body (prune m h) x = false.
+  Proof.
+    intros HI Hh Hx Hrun.
+    destruct (prune_removes_only_bodies U HWF m h HI) as [_ Hk]. destruct (Hk x) as [Hp _].
+    destruct Hp as (k & _ & Hk').
+    { pose proof (best_at_complete U HWF m x HI Hx) as Hxa.
+      pose proof (best_at_lt m _ _ Hxa) as Hxl.
+      exists (ht U x). split; [lia|]. split; [done|]. intros j Hj.
+      destruct (best_at_some m j) as [z Hz]; [lia|]. exists z. split; [done|].
+      apply Hrun; [by eapply best_at_elem|]. rewrite (best_at_ht U HWF m j z HI Hz). lia. }
+    unfold has_body. by rewrite Hk'.
+  Qed.
+
+  Lemma prune_beyond_tip_prunes_all m h :
+    MInv U m → bodies_contig U m → N.of_nat (length (best m)) ≤ h →
+    prune m h = prune m (N.of_nat (length (best m))) ∧
+    ∀ x, x ∈ best m → has_body (prune m h) x = false.
+  Proof.
+    intros HI Hc Hh. split; [by apply prune_clamp|]. intros x Hx.
+    destruct (has_body m x) eqn:E.
+    - apply prune_all_run; try done. intros y Hy Hle. by apply (contig_above m x y).
+    - unfold prune. by apply prune_from_body_mono.
+  Qed.
+End C.
+
+
 Lemma prune_preserves_inv U m h : MInv U m → MInv U (prune m h).
 Proof. apply MInv_prune_from. Qed.
 
@@ -685,7 +946,9 @@ Module ExP.
   Example pruned_by_ex : pruned_by m1 2 1 ∧ ¬ pruned_by m1 2 2.
   Proof.
     split.
-    - exists 1. split; [lia|]. split; [vm_compute; reflexivity|].
+    - unfold pruned_by.
+      replace (N.min 2 (N.of_nat (length (best m1)))) with 2 by (vm_compute; reflexivity).
+      exists 1. split; [lia|]. split; [vm_compute; reflexivity|].
       intros j Hj. assert (j = 1) as -> by lia. eexists. split; vm_compute; reflexivity.
     - intros Hp. destruct (pruned_by_ht U U_wf m1 2 2 m1_inv Hp) as [_ Hh].
       vm_compute in Hh. discriminate.
@@ -696,8 +959,12 @@ Module ExP.
     known (prune m1 2) !! 2 = Some (KI (Some SFull) true true) ∧
     min_reorg (prune m1 2) = 2.
   Proof. vm_compute. split_and!; reflexivity. Qed.
-  Example prune_beyond_tip_ex : prune m1 5 = m1 ∧ has_body (prune m1 4) 3 = false.
-  Proof. vm_compute. split; reflexivity. Qed.
+  (** a prune height beyond the tip prunes everything below the tip, tip included *)
+  Example prune_beyond_tip_ex :
+    prune m1 9 = prune m1 4 ∧ has_body (prune m1 9) 3 = false ∧ has_body (prune m1 9) 0 = false.
+  Proof. vm_compute. split_and!; reflexivity. Qed.
+  Example m1_invP : MInvP U (prune m1 2).
+  Proof. apply (mrun_invP U U_wf (ops1 ++ [Prune 2])). repeat constructor. Qed.
 
   (** a reorg below the boundary: the fork 4-5-7 needs block 2 reverted, whose body is gone *)
   Example below_boundary_ex :
@@ -745,13 +1012,16 @@ Module ExP.
     - vm_compute. split; reflexivity.
   Qed.
 
-  (** Observation (not covered by [C19_twin_equivalence], which is about a node right
-      after a prune): when the tip itself is pruned and AddValidatedV2Blocks later
-      re-stores the body of a lower best-chain block, MinReorgIndex moves below the
-      tip again although the tip still cannot be reverted. *)
-  Example min_reorg_overclaims_after_restore :
+  (** the history that used to make MinReorgIndex overclaim (tip pruned, then a lower
+      best-chain block submitted again through AddValidatedV2Blocks): the block is skipped,
+      the body stays pruned and MinReorgIndex stays at the tip *)
+  Example min_reorg_after_resubmission :
     let m := mrun U [AddBlocks [1; 2; 3]; Prune 4; AddValidated [2]] in
-    min_reorg m = 2 ∧ has_body m 3 = false ∧
-    reorg_reverts U m [10] = [3] ∧ (add_blocks U m [10]).1.2 = Err.
+    min_reorg m = 3 ∧ has_body m 2 = false ∧ has_body m 3 = false.
   Proof. vm_compute. split_and!; reflexivity. Qed.
 End ExP.
+
+Lemma min_reorg_sound_reachable U (HWF : WF U) ops (Hops : ops_pre U ops) x :
+  x ∈ best (mrun U ops) → ht U (min_reorg (mrun U ops)) < ht U x →
+  has_body (mrun U ops) x = true.
+Proof. apply min_reorg_sound; [done|by apply best_chain_inv|by apply mrun_contig]. Qed.
